@@ -233,6 +233,63 @@ class Harvester:
                 'unpicklable': self.unpicklable}
 
 
+class WireCapture:
+    """Collects the CIM-XML requests that the repository's tests make pywbem
+    send (they mock the transport below requests.Session.send): PY_START hook
+    on that method, body and headers of the PreparedRequest.  Input for the
+    wire-format oracle of C03."""
+
+    TOOL = 0
+
+    def __init__(self):
+        self.items = []
+        self.seen = set()
+        self.sent = 0
+
+    def start(self):
+        import requests
+        mon = sys.monitoring
+        try:
+            mon.use_tool_id(self.TOOL, 'vf-wirecap')
+        except ValueError:
+            pass
+        self.code = requests.sessions.Session.send.__code__
+        mon.register_callback(self.TOOL, mon.events.PY_START, self._start)
+        mon.set_local_events(self.TOOL, self.code, mon.events.PY_START)
+        return self
+
+    def _start(self, code, offset):
+        if code is not self.code:
+            return
+        try:
+            req = sys._getframe(1).f_locals.get('request')
+            body = req.body
+            if isinstance(body, str):
+                body = body.encode('utf-8')
+            if not isinstance(body, bytes):
+                return
+            headers = {str(k): (v.decode('latin-1') if isinstance(v, bytes)
+                                else str(v)) for k, v in req.headers.items()}
+        except Exception:  # pylint: disable=broad-except
+            return
+        self.sent += 1
+        if 'CIMOperation' not in headers and 'CIMExport' not in headers:
+            return
+        key = (body, tuple(sorted(headers.items())))
+        if key in self.seen or len(self.items) >= 5000:
+            return
+        self.seen.add(key)
+        self.items.append((body, headers))
+
+    def dump(self, path):
+        import pickle
+        with open(path, 'wb') as f:
+            pickle.dump(self.items, f, 4)
+
+    def report(self):
+        return {'sent': self.sent, 'kept': len(self.items)}
+
+
 def _monitors():
     return [m for m in os.environ.get('VERIF_MONITORS',
                                       'cimint,store').split(',') if m]
@@ -243,6 +300,8 @@ def pytest_configure(config):
         STATE['eqhash'] = EqHashMonitor().start()
     if 'harvest' in _monitors():
         STATE['harvest'] = Harvester().start()
+    if 'wirecap' in _monitors():
+        STATE['wirecap'] = WireCapture().start()
     from vf.reach import CIMIntInvariant
     STATE['cimint'] = CIMIntInvariant().start()
     import pywbem_mock._inmemoryrepository as rep
@@ -305,6 +364,12 @@ def pytest_sessionfinish(session, exitstatus):
         if hp:
             STATE['harvest'].dump(hp + '.harvest')
             report['harvest']['file'] = hp + '.harvest'
+    if STATE.get('wirecap'):
+        report['wirecap'] = STATE['wirecap'].report()
+        hp = os.environ.get('VERIF_CONTRACT_REPORT')
+        if hp:
+            STATE['wirecap'].dump(hp + '.wire')
+            report['wirecap']['file'] = hp + '.wire'
     path = os.environ.get('VERIF_CONTRACT_REPORT')
     if path:
         with open(path, 'w', encoding='utf-8') as f:
